@@ -32,6 +32,7 @@ def assign_io(cases, seed):
         if "io" not in c:
             c["io"] = READER_ROT[(seed + i) % len(READER_ROT)]
             c["wio"] = WRITER_ROT[(seed * 3 + i) % len(WRITER_ROT)]
+            c["rep"] = 2 if (seed + i) % 7 == 3 else 1      # every 7th case calls everything twice
 
 
 def sized_profiles(ctx, cfg):
@@ -164,13 +165,22 @@ def execute_and_judge(ctx, vh, cases, name="main", keep=None):
     cp = os.path.join(d, "cases.ndjson")
     core.write_ndjson(cp, cases)
     tp = os.path.join(d, "trace.ndjson")
-    args = ["obj-exec", "-in", cp, "-out", tp]
+    args = ["obj-exec", "-in", cp, "-out", tp, "-budget", "300" if ctx.tier == "quick" else "2400"]
     if keep:
         os.makedirs(keep, exist_ok=True)
         args += ["-keep", keep]
     core.run_vh(vh, args, timeout=1800)
     with open(tp) as f:
         raw = f.readlines()
+    stopped = None
+    if raw and raw[-1].startswith('{"k":"stop"'):
+        # the harness ended the run early (results far larger than their inputs account for, or the code
+        # under test slower by orders of magnitude): the lines before the stop line are judged; if none of
+        # them is rejected this is an infrastructure failure, never a pass (see run_family)
+        stopped = json.loads(raw.pop())
+        core.log("[exec] harness stopped after %d of %d cases: %s" % (stopped["done"], len(cases), stopped["why"]))
+        del cases[stopped["done"]:]
+        ctx.extra["stopped_early"] = stopped
     if len(raw) != len(cases):
         raise core.Infra("obj-exec wrote %d lines for %d cases" % (len(raw), len(cases)))
     findings, ex = judge_lines(ctx, name, raw)
@@ -359,6 +369,8 @@ def run_family(ctx, prefix="C05"):
     idle = [p for p in PREDICATES if ex.get(p, 0) == 0]
     known = {k["signature"] for k in core.load_known() if k.get("property") == ctx.pid and k.get("status") == "open"}
     fresh = [v for v in ctx.violations if v["signature"] not in known]
+    if ctx.extra.get("stopped_early") and not fresh:
+        raise core.Infra("the harness stopped early (%s) but no executed case was rejected" % ctx.extra["stopped_early"]["why"])
     if idle and not fresh:
         raise core.Infra("predicates never exercised: %s" % idle)
     if ctx.tier == "thorough" and not fresh:
